@@ -121,64 +121,79 @@ def check_hamiltonian(seq, R, proj, nq, times=None):
     if times is None:
         bounds = sorted({b for r in R["ch"] for seg in r["segs"] for b in (seg[0], seg[1] - 1)})
         times = sorted({t for t in bounds + [maxdur // 2, maxdur - 1] if 0 <= t < maxdur})[:10]
-    for t in times:
-        Href = reference_h(seq, R, nq, t, levels, coords, c6, c3, mag, proj["slmTg"], R["maskEnd"], in_xy)
-        if Href is None:
-            continue
-        try:
-            H = sim.get_hamiltonian(float(t)).full()
-        except Exception as e:  # noqa: BLE001
-            out.append(("C05.Hamiltonian", {"clause": "get_hamiltonian_raises", "t": t, "exc": repr(e)[:200]}))
-            break
-        scale = max(1.0, float(np.max(np.abs(Href))))
-        if H.shape != Href.shape or not np.allclose(H, Href, rtol=0, atol=1e-9 * scale):
-            rr, cc = (np.unravel_index(int(np.argmax(np.abs(H - Href))), H.shape)
-                      if H.shape == Href.shape else (-1, -1))
-            # classification aid: is the only difference that the implementation ADDS the phase
-            # arrays of all the channels of a basis (the held phase of an idle channel included)?
-            phase_sum = False
-            if H.shape == Href.shape:
-                try:
-                    from pulser.sampler import sampler as _s
-                    nd = _s.sample(seq).to_nested_dict(all_local=False)
-                    # drive coefficient the implementation's own per-atom view implies:
-                    # global part + local part, each with its own (summed) phase array
-                    coef = {}
-                    for basis in set(nd.get("Global", {})) | set(nd.get("Local", {})):
-                        for q in range(1, nq + 1):
-                            z = 0j
-                            g = nd.get("Global", {}).get(basis)
-                            if g is not None and t < len(g["amp"]):
-                                z += g["amp"][t] / 2 * np.exp(-1j * g["phase"][t])
-                            lq = nd.get("Local", {}).get(basis, {}).get(f"q{q}")
-                            if lq is not None and t < len(lq["amp"]):
-                                z += lq["amp"][t] / 2 * np.exp(-1j * lq["phase"][t])
-                            coef[(basis, q)] = z
-                    Halt = Href.copy()
-                    for (r_, c_, kind, basis, i_, j_) in _TERMS[(nq, tuple(levels))]:
-                        if kind == "drive":
-                            Halt[r_, c_] = coef.get((basis, i_), 0j)
-                        elif kind == "driveC":
-                            Halt[r_, c_] = np.conj(coef.get((basis, i_), 0j))
-                    nb = {}
-                    for ch_ in seq._schedule.values():
-                        if type(ch_.channel_obj).__name__ != "DMM":
-                            nb[ch_.channel_obj.basis] = nb.get(ch_.channel_obj.basis, 0) + 1
-                    phase_sum = bool(Halt is not None and np.allclose(H, Halt, rtol=0, atol=1e-9 * scale)
-                                     and max(nb.values()) >= 2)
-                except Exception:  # noqa: BLE001
-                    phase_sum = False
-            out.append(("C05.Hamiltonian", {
-                "clause": "entry", "t": t, "basis_name": sim.basis_name, "row": int(rr), "col": int(cc),
-                "got": str(H[rr, cc]) if rr >= 0 else None,
-                "expected": str(Href[rr, cc]) if rr >= 0 else None,
-                "diag_only": bool(rr == cc),
-                "only_phase_of_several_channels_summed": phase_sum,
-                "xy_mask_edge": bool(in_xy and R["maskEnd"] > 0 and t == R["maskEnd"])}))
-            if len(out) >= 3:
-                break
-            continue
-        if not np.allclose(H, H.conj().T, atol=1e-9 * scale):
-            out.append(("C05.Hamiltonian", {"clause": "hermitian", "t": t}))
-            break
+    sims = [("fresh", sim)]
+    try:
+        # the Hamiltonian is a function of the sequence and the CURRENT configuration: after a noisy
+        # configuration has been set and removed again it must be the noiseless one
+        from pulser_simulation import SimConfig
+        with warnings.catch_warnings():
+            warnings.simplefilter("ignore")
+            sim2 = QutipEmulator.from_sequence(seq)
+            sim2.set_config(SimConfig(noise="SPAM", eta=0.999, epsilon=0.0, epsilon_prime=0.0, runs=1,
+                                      samples_per_run=1))
+            sim2.reset_config()
+        sims.append(("after_config_round_trip", sim2))
+    except Exception:  # noqa: BLE001
+        pass
+    for which, sim in sims:
+      for t in (times if which == "fresh" else times[:3]):
+          Href = reference_h(seq, R, nq, t, levels, coords, c6, c3, mag, proj["slmTg"], R["maskEnd"], in_xy)
+          if Href is None:
+              continue
+          try:
+              H = sim.get_hamiltonian(float(t)).full()
+          except Exception as e:  # noqa: BLE001
+              out.append(("C05.Hamiltonian", {"clause": "get_hamiltonian_raises", "t": t, "exc": repr(e)[:200]}))
+              break
+          scale = max(1.0, float(np.max(np.abs(Href))))
+          if H.shape != Href.shape or not np.allclose(H, Href, rtol=0, atol=1e-9 * scale):
+              rr, cc = (np.unravel_index(int(np.argmax(np.abs(H - Href))), H.shape)
+                        if H.shape == Href.shape else (-1, -1))
+              # classification aid: is the only difference that the implementation ADDS the phase
+              # arrays of all the channels of a basis (the held phase of an idle channel included)?
+              phase_sum = False
+              if H.shape == Href.shape:
+                  try:
+                      from pulser.sampler import sampler as _s
+                      nd = _s.sample(seq).to_nested_dict(all_local=False)
+                      # drive coefficient the implementation's own per-atom view implies:
+                      # global part + local part, each with its own (summed) phase array
+                      coef = {}
+                      for basis in set(nd.get("Global", {})) | set(nd.get("Local", {})):
+                          for q in range(1, nq + 1):
+                              z = 0j
+                              g = nd.get("Global", {}).get(basis)
+                              if g is not None and t < len(g["amp"]):
+                                  z += g["amp"][t] / 2 * np.exp(-1j * g["phase"][t])
+                              lq = nd.get("Local", {}).get(basis, {}).get(f"q{q}")
+                              if lq is not None and t < len(lq["amp"]):
+                                  z += lq["amp"][t] / 2 * np.exp(-1j * lq["phase"][t])
+                              coef[(basis, q)] = z
+                      Halt = Href.copy()
+                      for (r_, c_, kind, basis, i_, j_) in _TERMS[(nq, tuple(levels))]:
+                          if kind == "drive":
+                              Halt[r_, c_] = coef.get((basis, i_), 0j)
+                          elif kind == "driveC":
+                              Halt[r_, c_] = np.conj(coef.get((basis, i_), 0j))
+                      nb = {}
+                      for ch_ in seq._schedule.values():
+                          if type(ch_.channel_obj).__name__ != "DMM":
+                              nb[ch_.channel_obj.basis] = nb.get(ch_.channel_obj.basis, 0) + 1
+                      phase_sum = bool(Halt is not None and np.allclose(H, Halt, rtol=0, atol=1e-9 * scale)
+                                       and max(nb.values()) >= 2)
+                  except Exception:  # noqa: BLE001
+                      phase_sum = False
+              out.append(("C05.Hamiltonian", {
+                  "clause": "entry", "t": t, "emulator": which, "basis_name": sim.basis_name, "row": int(rr), "col": int(cc),
+                  "got": str(H[rr, cc]) if rr >= 0 else None,
+                  "expected": str(Href[rr, cc]) if rr >= 0 else None,
+                  "diag_only": bool(rr == cc),
+                  "only_phase_of_several_channels_summed": phase_sum,
+                  "xy_mask_edge": bool(in_xy and R["maskEnd"] > 0 and t == R["maskEnd"])}))
+              if len(out) >= 3:
+                  break
+              continue
+          if not np.allclose(H, H.conj().T, atol=1e-9 * scale):
+              out.append(("C05.Hamiltonian", {"clause": "hermitian", "t": t}))
+              break
     return out
